@@ -253,6 +253,28 @@ func c17Check(s objSpec) fw.Outcome {
 			return fw.Failf(label, "AppendJSON modified the prefix's visible contents: %q", buf[:len(prefix)])
 		}
 	}
+	// a second, fresh object whose FIRST serialisation goes into a caller's buffer that already has content
+	// and is then reused by the caller: what the object returns afterwards must not depend on that buffer
+	// (a cached rendering must be the object's own copy, and of its own bytes only)
+	{
+		fresh := s.build()
+		buf := make([]byte, 0, 2*len(base)+64)
+		buf = append(buf, "[0,"...)
+		first := fresh.AppendJSON(buf)
+		if !bytes.Equal(first, append([]byte("[0,"), base...)) {
+			return fw.Failf(label, "first AppendJSON of a fresh object into a used buffer returned %q, want \"[0,\" followed by %q", first, base)
+		}
+		full := first[:cap(first)]
+		for i := range full {
+			full[i] = 'Z'
+		}
+		if again := fresh.JSON(); again != string(base) {
+			return fw.Failf(label, "after AppendJSON into a caller's buffer that the caller then overwrote, JSON() returns %q, want %q", again, base)
+		}
+		if again := fresh.AppendJSON(nil); !bytes.Equal(again, base) {
+			return fw.Failf(label, "second AppendJSON(nil) returns %q, want %q", again, base)
+		}
+	}
 	if !json.Valid(base) {
 		return fw.Failf(label, "output is not valid JSON: %q (spec %+v)", base, s)
 	}
